@@ -925,13 +925,14 @@ def case_user_classes(ctx, rseed, count):
 
 
 class _Reentrant(io.StringIO):
-    """A text stream whose first write renders another formula (into a stream of its own) before it goes on."""
-    def __init__(self, inner):
+    """A text stream one of whose writes (the at-th) renders another formula, into a stream of its own, before it goes on."""
+    def __init__(self, inner, at=0):
         io.StringIO.__init__(self)
-        self.inner, self.fired = inner, False
+        self.inner, self.fired, self.at, self.calls = inner, False, at, 0
 
     def write(self, text):
-        if not self.fired:
+        self.calls += 1
+        if not self.fired and self.calls > self.at:
             self.fired = True
             self.inner()
         return io.StringIO.write(self, text)
@@ -975,9 +976,13 @@ def case_interrupted_and_nested(ctx, rseed, count):
             # (b) nested export
             fmt2 = r.choice(["opb", "latex"])
             inner_buf = io.StringIO()
-            outer = _Reentrant(lambda: B.to_file(inner_buf, fmt2))
+            outer = _Reentrant(lambda: B.to_file(inner_buf, fmt2), at=r.choice([0, 1, 3, 8, 15, 30, 60]))
             st, val = ctx.call(A.to_file, outer, fmt)
             ctx.count("nested_exports")
+            if not outer.fired:
+                B.to_file(inner_buf, fmt2)         # (the outer text was shorter than that: nothing nested this time)
+            else:
+                ctx.count("nested_exports_in_the_middle" if outer.at else "nested_exports_at_the_start")
             if st == "exc":
                 ctx.violation("render:%s:%s:raises:%s" % (fmt, memA.kind.upper(), type(val).__name__),
                               "export of a formula during which another one is exported raised %r" % (val,))
